@@ -422,7 +422,9 @@ def context_layer_data(case, layer):
     return d
 
 
-def make_context(case, cfgdir):
+def make_context(case, cfgdir, pool=None):
+    """pool: {content digest: dict} - when given, dict layers with equal content are the SAME caller-owned object across
+    calls (a user defines a context dict once and passes it, alone or in lists, to several configs)."""
     ctx = case.get('context')
     if not ctx:
         return None
@@ -451,6 +453,8 @@ def make_context(case, cfgdir):
         d = context_layer_data(case, layer)
         emit_nested(layer, d)
         if layer['form'] == 'dict':
+            if pool is not None:
+                d = pool.setdefault(json.dumps(canon(d), sort_keys=True, default=repr), d)
             out.append(d)
         else:
             fmt = 'json' if layer['form'] == 'file_json' else 'yaml'
@@ -479,7 +483,7 @@ def make_global_vars(case, cfgdir):
 _DEFAULT = object()
 
 
-def make_config(case, base_dir, cfgdir, root=None, part=None, context=_DEFAULT):
+def make_config(case, base_dir, cfgdir, root=None, part=None, context=_DEFAULT, ctx_pool=None):
     import taskchain
     rf = case['files'][case['root'] if root is None else root]
     path = file_path(cfgdir, rf)
@@ -493,4 +497,4 @@ def make_config(case, base_dir, cfgdir, root=None, part=None, context=_DEFAULT):
     else:
         fp = path
     return taskchain.Config(Path(base_dir), fp, global_vars=make_global_vars(case, cfgdir),
-                            context=make_context(case, cfgdir) if context is _DEFAULT else context, **kw)
+                            context=make_context(case, cfgdir, ctx_pool) if context is _DEFAULT else context, **kw)
